@@ -12,6 +12,7 @@ package main
 import (
 	"fmt"
 	"os"
+	"regexp"
 	"runtime"
 	"sort"
 	"strings"
@@ -112,6 +113,8 @@ type executor struct {
 	ghost     map[string]value
 	sch       *scheduler
 	deadlocks int
+	sideTab   map[*value]*mutexState
+	clock     int64
 }
 
 type config struct {
@@ -123,6 +126,7 @@ type config struct {
 	trace        bool
 	deadline     time.Time
 	maxWitness   int
+	labels       *regexp.Regexp
 }
 
 // X is the executor of the path being run.
